@@ -23,6 +23,8 @@ VERIF_FAIL = (
     'loop invariant not preserved',
     'failed to meet its declared type invariant',
     'recommendation not met',
+    'precondition not met',
+    'index in bounds',
     'assertion failed'
 )
 TOOL_LIMIT = ('rlimit', 'Resource limit', 'timed out', 'timeout', 'could not determine')
